@@ -481,3 +481,85 @@ func c11Lab(t *testing.T) {
 		}
 	})
 }
+
+// FuzzFraming: the native coverage-guided target of the thorough tier. The
+// fuzzer owns the stream bytes and the segmentation. In the property's domain
+// (the independent reader accepts the whole stream as a concatenation of
+// well-formed messages, and the product decodes the unsegmented stream into
+// as many messages) every segmentation must decode to the same sequence.
+func FuzzFraming(f *testing.F) {
+	one := "MESSAGE sip:u@h.test SIP/2.0\r\nVia: SIP/2.0/TCP h;branch=z9hG4bK1\r\nFrom: <sip:a@b>;tag=1\r\nTo: <sip:c@d>\r\nCall-ID: one\r\nCSeq: 1 MESSAGE\r\nContent-Length: 5\r\n\r\nhello"
+	two := "SIP/2.0 200 OK\r\nv: SIP/2.0/TCP h;branch=z9hG4bKp\r\ni: two\r\nl: 0\r\n\r\n"
+	lf := "OPTIONS sip:h SIP/2.0\nVia: SIP/2.0/TCP h\nCall-ID: lf\nContent-Length: 41\n\nBYE sip:x SIP/2.0\r\nContent-Length: 0\r\n\r\n"
+	long := "INFO sip:h SIP/2.0\r\nVia: SIP/2.0/TCP h\r\nCall-ID: long\r\nX-Long: " + strings.Repeat("v", 4096-len("X-Long: ")-2) + "\r\nSubject: after\r\nContent-Length: 2\r\n\r\n\r\n"
+	for _, s := range []string{one, one + two, "\r\n\r\n" + two + "\r\n" + one + lf + "\r\n", long + one, one + long + two} {
+		f.Add([]byte(s), []byte{}, byte(1))
+		f.Add([]byte(s), []byte{0, 0, 0, 0, 0, 0, 0, 0}, byte(0))
+		f.Add([]byte(s), []byte{7, 200, 3, 90, 255, 1}, byte(0))
+		f.Add([]byte(s), []byte{}, byte(17))
+	}
+	f.Fuzz(func(t *testing.T, stream []byte, gaps []byte, mode byte) {
+		if len(stream) == 0 || len(stream) > 1<<17 {
+			return
+		}
+		// the property's domain
+		r := bufio.NewReader(strings.NewReader(string(stream)))
+		var ref []*RMsg
+		for {
+			rm, err := sipReadStream(r)
+			if err != nil {
+				if err != io.EOF {
+					return
+				}
+				break
+			}
+			ref = append(ref, rm)
+			if len(ref) > 64 {
+				return
+			}
+		}
+		if len(ref) == 0 {
+			return
+		}
+		// the decoder and the reader must agree about where the messages of the
+		// unsegmented stream begin and end, otherwise it is not a framing question
+		whole, _ := c11Decode(stream, nil)
+		if len(whole) != len(ref) {
+			return
+		}
+		for i := range ref {
+			if string(whole[i].body) != string(ref[i].Body) {
+				return
+			}
+		}
+		var cuts []int
+		switch {
+		case mode == 1:
+			for i := 1; i < len(stream) && i < 1<<14; i++ {
+				cuts = append(cuts, i)
+			}
+		case mode >= 16:
+			for i := int(mode); i < len(stream); i += int(mode) {
+				cuts = append(cuts, i)
+			}
+		default:
+			pos := 0
+			for _, g := range gaps {
+				pos += 1 + int(g)
+				if pos >= len(stream) {
+					break
+				}
+				cuts = append(cuts, pos)
+			}
+		}
+		got, err := c11Decode(stream, cuts)
+		if len(got) != len(whole) {
+			t.Fatalf("%d messages decoded from the segmented stream, %d from the unsegmented one (segmented loop ended with: %v); cuts=%v\nstream: %s", len(got), len(whole), err, c11ShortCuts(cuts), jsonBytes(stream))
+		}
+		for i := range whole {
+			if d := prodSame(got[i], whole[i]); d != "" {
+				t.Fatalf("message %d of %d differs between the segmented and the unsegmented decode: %s; cuts=%v\nstream: %s", i+1, len(whole), d, c11ShortCuts(cuts), jsonBytes(stream))
+			}
+		}
+	})
+}
